@@ -167,6 +167,65 @@ func (p *symElemPtr) load(it *Interp) Value {
 			hi = int(iv.hi)
 		}
 	}
+	// constant tables: run-length compression into runs that are constant or +1
+	// progressions, so that a 256-entry lookup becomes a handful of range tests
+	allConst := true
+	var w Sort
+	for i := lo; i <= hi; i++ {
+		e, ok := p.elems[i].(*Term)
+		if !ok || !e.isConst() || e.sort <= 0 {
+			allConst = false
+			break
+		}
+		w = e.sort
+	}
+	if allConst && hi-lo >= 4 {
+		type run struct {
+			a, b int
+			step uint64
+		}
+		var runs []run
+		i := lo
+		for i <= hi {
+			j := i
+			step := uint64(0)
+			if j+1 <= hi {
+				d := (p.elems[j+1].(*Term).cv - p.elems[j].(*Term).cv) & mask(w)
+				if d == 0 || d == 1 {
+					step = d
+					for j+1 <= hi && (p.elems[j+1].(*Term).cv-p.elems[j].(*Term).cv)&mask(w) == step {
+						j++
+					}
+				}
+			}
+			runs = append(runs, run{i, j, step})
+			i = j + 1
+		}
+		if len(runs) <= 40 {
+			idxW := p.idx
+			var low *Term
+			if int(w) <= 64 {
+				low = bvExtract(idxW, int(w)-1, 0)
+			}
+			var res *Term
+			for k := len(runs) - 1; k >= 0; k-- {
+				r := runs[k]
+				var v *Term
+				base := p.elems[r.a].(*Term).cv
+				if r.step == 0 {
+					v = mkBV(int(w), base)
+				} else {
+					v = bvBin("bvadd", low, mkBV(int(w), base-uint64(r.a)))
+				}
+				if res == nil {
+					res = v
+				} else {
+					res = mkIte(bvCmp("bvule", idxW, mkBV(64, uint64(r.b))), v, res)
+				}
+			}
+			return res
+		}
+	}
 	// ite chain over same-sorted scalar elements
 	var res *Term
 	for i := hi; i >= lo; i-- {
